@@ -44,6 +44,9 @@ type GenesisSpec struct {
 	NodeParams    nodetypes.Params
 	BuiltinDid    string
 	UnbondingTime time.Duration
+	// pre-registered nodes and their pledges (pool totals and the node escrow balance are derived)
+	Nodes   []nodetypes.Node
+	Pledges []nodetypes.Pledge
 	MaxValidators uint32
 	// Mutate allows arbitrary edits of module genesis (raw JSON per module).
 	Mutate func(gs app.GenesisState)
@@ -164,6 +167,22 @@ func BuildGenesis(spec GenesisSpec) []byte {
 	ng.Pool.AccPledgePerByte = sdk.NewInt64DecCoin(Denom, 0)
 	ng.Pool.RewardPerBlock = sdk.NewInt64DecCoin(Denom, 0)
 	ng.Pool.NextRewardPerBlock = sdk.NewInt64DecCoin(Denom, 0)
+	if len(spec.Nodes) > 0 {
+		ng.NodeList = spec.Nodes
+		ng.PledgeList = spec.Pledges
+		escrow := sdk.ZeroInt()
+		for _, p := range spec.Pledges {
+			ng.Pool.TotalStorage += p.TotalStorage
+			ng.Pool.TotalPledged = ng.Pool.TotalPledged.Add(p.TotalStoragePledged)
+			escrow = escrow.Add(p.TotalStoragePledged.Amount).Add(p.TotalShardPledged.Amount)
+		}
+		if escrow.IsPositive() {
+			ec := sdk.NewCoins(sdk.NewCoin(Denom, escrow))
+			bals = append(bals, banktypes.Balance{Address: authtypes.NewModuleAddress(nodetypes.ModuleName).String(), Coins: ec})
+			total = total.Add(ec...)
+			gs[banktypes.ModuleName] = cdc.MustMarshalJSON(banktypes.NewGenesisState(banktypes.DefaultGenesisState().Params, bals, total, nil))
+		}
+	}
 	gs[nodetypes.ModuleName] = cdc.MustMarshalJSON(ng)
 
 	if spec.BuiltinDid != "" {
